@@ -265,3 +265,61 @@ B("b11", ["C20"], VI, "        if self.epsilon <= 0:\n            raise ValueErr
 B("b18", ["C20"], VI, "        if not 0 <= self.gamma <= 1:", "        if self.gamma < 0 or self.gamma > 1:", "gamma guard as a disjunction")
 B("b19", ["C20"], LOGGING, "    decimal_places = max(0, min(decimal_places, max_decimals))", "    decimal_places = min(max(decimal_places, 0), max_decimals)", "clamp in the other nesting order")
 B("b20", ["C20"], PI, "        if self.max_eval_iter <= 0:", "        if self.max_eval_iter < 1:", "integer guard as < 1")
+
+# =============================================================================== C18
+M("m69", "C18", "R18.1", BATCH, "        self.n_pad = total_size - n_states\n", "        self.n_pad = total_size - n_states + 1\n", "padding off by one", survives="no")
+M("m70", "C18", "R18.2", BATCH, "                [states, jnp.zeros((self.n_pad, self.state_dim), dtype=states.dtype)]",
+  "                [jnp.zeros((self.n_pad, self.state_dim), dtype=states.dtype), states]", "padding stacked before the states", survives="no")
+M("m71", "C18", "R18.3", BATCH,
+  "            self.batch_size = min(\n                max_batch_size,  # user provided/default max\n                max(64, states_per_device),  # ensure minimum batch size\n            )",
+  "            self.batch_size = max(64, states_per_device)", "multi-device batch size ignores the maximum", survives="no")
+M("m72", "C18", "R18.4", BATCH, "        states_per_device = (n_states + self.n_devices - 1) // self.n_devices", "        states_per_device = n_states // self.n_devices",
+  "floor instead of ceiling division per device (slots < states when D does not divide N; every test uses one device or divisible sizes)")
+M("m72b", "C18", "R18.4", BATCH, "            self.n_batches = (\n                states_per_device + self.batch_size - 1\n            ) // self.batch_size",
+  "            self.n_batches = states_per_device // self.batch_size", "floor division for the batch count", survives="no")
+M("m72c", "C18", "R18.2", BATCH, "            return results[: -self.n_pad]", "            return results[self.n_pad :]", "padding stripped from the front", survives="no")
+M("m72d", "C18", "R18.1", BATCH, "            self.n_devices, self.n_batches, self.batch_size, self.state_dim\n        )",
+  "            self.n_batches, self.n_devices, self.batch_size, self.state_dim\n        )", "device and batch axes swapped in the reshape")
+M("m72e", "C18", "R18.5", BATCH, "            len(jax.devices()) if pmap_device_count is None else pmap_device_count", "            len(jax.devices())",
+  "requested device count ignored", survives="no")
+M("m72f", "C18", "R18.3", BATCH, "            self.batch_size = min(max_batch_size, n_states)", "            self.batch_size = max_batch_size",
+  "single-device batch size not clipped to the problem size (bound still holds: R18.3 silent) - expected R18.4/R18.1 silent too; kept as a behaviour-preserving probe", survives="yes")
+MUTANTS.pop()
+B("b12", ["C18"], BATCH, "            return results[: -self.n_pad]", "            return results[: self.n_states]", "keep the first n_states rows instead of stripping n_pad")
+B("b21", ["C18"], BATCH, "        total_size = self.n_devices * self.n_batches * self.batch_size", "        total_size = self.batch_size * self.n_batches * self.n_devices", "product commuted")
+B("b22", ["C18"], BATCH, "        states_per_device = (n_states + self.n_devices - 1) // self.n_devices", "        states_per_device = -(-n_states // self.n_devices)", "ceiling division spelled with negation")
+
+# =============================================================================== C07
+M("m35", "C07", "R7.1", PVI, "        prev_index = (history_index + 1) % (period + 1)", "        prev_index = (history_index + 1) % period", "undiscounted slot modulus period", survives="(yes)")
+M("m36", "C07", "R7.1", PVI, "            curr_index = (history_index - p) % (period + 1)", "            curr_index = (history_index - p) % period", "curr_index modulus period", survives="(yes)")
+M("m37", "C07", "R7.1", PVI, "            prev_index = (curr_index - 1) % (period + 1)", "            prev_index = (curr_index - 1) % period", "prev_index modulus period", survives="(yes)")
+M("m38", "C07", ["R7.1", "R7.6"], PVI, "        self.history_index = (self.history_index + 1) % (self.period + 1)", "        self.history_index = (self.history_index + 1) % self.period",
+  "index advance modulus period", survives="(yes)")
+M("m39", "C07", "R7.2", PVI, "        prev_index = (history_index + 1) % (period + 1)", "        prev_index = history_index % (period + 1)", "compares with the current slot", survives="(yes)")
+M("m40", "C07", "R7.3", PVI, "                gamma ** (iteration - p - 1)", "                gamma ** (iteration - p)", "discount exponent off by one", survives="(yes)")
+M("m41", "C07", "R7.3", PVI, "            prev_index = (curr_index - 1) % (period + 1)", "            prev_index = (curr_index + 1) % (period + 1)", "previous slot taken from the wrong side", survives="(yes)")
+M("m42", "C07", "R7.4", PVI, "        if iteration < period:\n            return float(\"inf\")", "        if iteration <= period:\n            return float(\"inf\")", "warm-up one sweep too long", survives="(yes)")
+M("m42b", "C07", "R7.4", PVI, "            self.iteration += 1\n            new_values, conv = self._iteration_step()", "            new_values, conv = self._iteration_step()\n            self.iteration += 1",
+  "increment after the step (n lags by one)", survives="(yes)")
+M("m43", "C07", "R7.6", PVI,
+  "        # Store values in history (CPU)\n        self.history_index = (self.history_index + 1) % (self.period + 1)\n        self.value_history[self.history_index] = np.array(new_values)\n\n        # Calculate convergence using the test function\n        conv = self._convergence_test_fn(\n            new_values,\n            self.values,\n            self.history_index,\n            self.period,\n            self.value_history,\n            self.iteration,\n            self.gamma,\n        )\n",
+  "        # Calculate convergence using the test function\n        conv = self._convergence_test_fn(\n            new_values,\n            self.values,\n            self.history_index,\n            self.period,\n            self.value_history,\n            self.iteration,\n            self.gamma,\n        )\n        # Store values in history (CPU)\n        self.history_index = (self.history_index + 1) % (self.period + 1)\n        self.value_history[self.history_index] = np.array(new_values)\n",
+  "convergence call before the history store", survives="(yes)")
+M("m44", "C07", "R7.6", PVI, "            self.history_index,\n            self.period,\n            self.value_history,", "            self.period,\n            self.history_index,\n            self.value_history,",
+  "history_index and period swapped in the 7-argument call", survives="(yes)")
+M("m45", "C07", "R7.8", PVI, "        self.value_history[0] = np.array(self.values)\n", "", "row 0 of the history never set", survives="(yes)")
+M("m45b", "C07", "R7.1", PVI, "        self.value_history = np.zeros((self.period + 1, self.problem.n_states))", "        self.value_history = np.zeros((self.period, self.problem.n_states))",
+  "buffer one row short", survives="(yes)")
+MUTANTS[-1]["rule"] = ["R7.1", "R7.8"]
+M("m45c", "C07", "R7.5", PVI, "        if gamma == 1.0:\n            return self._calculate_period_span_without_discount(", "        if gamma != 1.0:\n            return self._calculate_period_span_without_discount(",
+  "branches swapped", survives="(yes)")
+M("m45d", "C07", "R7.7", PVI, "    def _iteration_step(self) -> tuple[ValueFunction, float]:\n        \"\"\"Perform one iteration of the solution algorithm.",
+  "    def _get_value_next_state(self, next_state, values):\n        return values[0]\n\n    def _iteration_step(self) -> tuple[ValueFunction, float]:\n        \"\"\"Perform one iteration of the solution algorithm.",
+  "PVI overrides a kernel method", survives="(yes)")
+M("m15", "C07", ["R7.7", "R7.6"], PVI, "            self.problem.action_space,\n            self.problem.random_event_space,\n            self.gamma,\n            self.values,\n        )\n        # Store values in history",
+  "            self.problem.random_event_space,\n            self.problem.action_space,\n            self.gamma,\n            self.values,\n        )\n        # Store values in history",
+  "action and event spaces swapped in PVI's sweep call", survives="(yes)")
+B("b06", ["C07"], PVI, "        prev_index = (history_index + 1) % (period + 1)", "        prev_index = (history_index - period) % (period + 1)", "slot written as (h - P) mod (P+1)")
+B("b23", ["C07"], PVI, "            period_deltas += (values_curr - values_prev) / (\n                gamma ** (iteration - p - 1)\n            )",
+  "            period_deltas += (values_curr - values_prev) * gamma ** (p + 1 - iteration)", "division by a power written as a negative power")
+B("b24", ["C07"], PVI, "            prev_index = (curr_index - 1) % (period + 1)", "            prev_index = (history_index - p - 1) % (period + 1)", "prev index computed directly")
